@@ -218,7 +218,12 @@ class SVal:
             env.update(entry_env)
         self.entry_env = dict(env)
         self.end_env = None
-        if run:
+        if run and isinstance(fi.node, ast.Lambda):
+            v = self.ev(fi.node.body, env, ())
+            self.returns.append(((), v, fi.node))
+            self.exit_envs.append(((), dict(env)))
+            self.end_env = None
+        elif run:
             r = self.block(fi.node.body, env, ())
             self.end_env = r[0] if r is not None else None
             if r is not None:
@@ -507,7 +512,35 @@ class SVal:
                 return ('add', items)
         return mk_cond(c, a, b)
 
+    def _search_loop(self, st, env, pc):
+        """`for x in xs: if test(x): break  [else: ...]`  is  x = next(x for x in xs if test(x))  whose StopIteration runs the
+        else branch"""
+        lid = self._new_id()
+        it = self.ev(st.iter, env, pc)
+        benv = dict(env)
+        it = self._bind_iter(st.target, it, lid, benv, pc, st)
+        self.loops[lid] = (st, it)
+        test = self.ev(st.body[0].test, benv, pc)
+        elem = benv[st.target.id]
+        site = self._sites.setdefault(id(st), len(self._sites) + 1)
+        found = ('call', 'builtins.next', NONE, (('#0', ('list', (('each', lid, it, norm_pc(((test, True),)), elem),))),), site)
+        self._seq += 1
+        self.calls.append(CallRec(st, 'next', 'builtins.next', (), 'builtins.next', None, {'#0': found[3][0][1]}, norm_pc(pc), found, self,
+                                  self._seq))
+        tid = self._new_id()
+        if st.orelse:
+            miss = pc + ((('caught', ('global', 'builtins.StopIteration'), tid), True),)
+            r = self.block(st.orelse, dict(env), miss)
+            if r is not None:
+                out = self.merge(('tryjoin', tid), dict(env, **{st.target.id: found}), r[0])
+                return out, pc
+        env[st.target.id] = found
+        return env, pc
+
     def loop(self, st, env, pc):
+        if (isinstance(st, ast.For) and isinstance(st.target, ast.Name) and len(st.body) == 1 and isinstance(st.body[0], ast.If)
+                and not st.body[0].orelse and len(st.body[0].body) == 1 and isinstance(st.body[0].body[0], ast.Break)):
+            return self._search_loop(st, env, pc)
         lid = self._new_id()
         it = self.ev(st.iter, env, pc) if isinstance(st, ast.For) else None
         stored = set()
@@ -967,6 +1000,15 @@ class _ModScope:
 
     def defaults(self):
         return {}
+
+
+def module_body(prog, res, module):
+    """value terms of the module's top-level statements (the script part of pyikev2.py)"""
+    sv = SVal(prog, res, _ModScope(module), run=False)
+    sv._in_const = True
+    r = sv.block(module.tree.body, {}, ())
+    sv.end_env = r[0] if r is not None else None
+    return sv
 
 
 def module_scope(prog, res, module):
